@@ -226,6 +226,16 @@ def run(ctx):
         "options name with exactly the merged --optconf settings; the JSON emitted is made of what that call returned",
         "STATE", floor=25,
     )
+    r5 = ctx.rule(
+        "C19.R5",
+        "BACKEND-STATE (interpreted, engine shared with C11.R7): what `--backend` / `--optimizer` / `--optconf` hand to set_backend "
+        "takes effect: set_backend walked over histories of backend names, precisions, optimizer names and optimizer OBJECTS carrying "
+        "settings (equality between optimizers decided by the real optimizer classes): after every call the backend and the optimizer "
+        "in force -- with its settings -- are the ones that call asked for",
+        "STATE", floor=20,
+    )
+    from .c11 import _r7_switch_histories
+    _r7_switch_histories(ctx, r5)
     from . import c19cli
     c19cli.check_infer(ctx, r4, repo)
     c19cli.check_inspect(ctx, r4, repo)
